@@ -612,10 +612,17 @@ def renderRouter : RouterC → RouterD
       (rn.filter (! isNull ·))
   | .random rn cs => .random (cs.map renderCat) (rn.filter truthy)
 
+/-- F-C05-a: `ContactFieldReference.render` (common.py) writes `render_dict["type"] = type`
+— the builtin — instead of `self.type`.  Tied to the source by `tables_agree`
+(`Gen.contactFieldTypeBug`): when the source is fixed, set this to `false` and delete
+`render_load_needs_UntypedFields`. -/
+def fieldTypeBug : Bool := true
+
 /-- every `render` of actions.py -/
 def renderAction : ActionD → ActionD
   | .sendMsg u t att q au tp tm => .sendMsg u t (att.filter truthy) q (au.filter truthy) (tp.filter truthy) tm
-  | .setContactField u n k t v => .setContactField u n k ((t.filter truthy).map (fun _ => jTypeBuiltin)) v
+  | .setContactField u n k t v =>
+    .setContactField u n k (if fieldTypeBug then (t.filter truthy).map (fun _ => jTypeBuiltin) else t.filter truthy) v
   | .removeGroups u gs ag => .removeGroups u (gs.map renderGroup) (ag.filter truthy)
   | .addGroups u gs => .addGroups u (gs.map renderGroup)
   | .setRunResult u n v c => .setRunResult u n v (c.filter truthy)
